@@ -384,13 +384,18 @@ impl OutstationSession {
     ) -> RunError {
         loop {
             if let Err(err) = self.run_idle_state(io, reader, writer, database).await {
-                self.state.reset();
-                // an interrupted response is not confirmed: nothing it carried may be released, and
-                // the remainder of its selection does not belong to the next session
-                database.reset();
+                self.reset(database);
                 return err;
             }
         }
+    }
+
+    /// what the end of a communication session resets, also used when `run` is cancelled
+    pub(crate) fn reset(&mut self, database: &mut DatabaseHandle) {
+        self.state.reset();
+        // an interrupted response is not confirmed: nothing it carried may be released, and
+        // the remainder of its selection does not belong to the next session
+        database.reset();
     }
 
     async fn write_unsolicited(
